@@ -72,10 +72,13 @@ class Real(Spec):
 
     def sample(self, rng, name, asg):
         r = rng.random()
-        if r < 0.05:
+        e = getattr(rng, 'edge', 0.10)
+        if r < e / 2:
             v = self.lo
-        elif r < 0.10:
+        elif r < e:
             v = self.hi
+        elif r < 1.5 * e and e > 0.10 and self.lo <= 0 <= self.hi:
+            v = 0.0
         elif self.log and self.lo > 0:
             v = math.exp(rng.uniform(math.log(self.lo), math.log(self.hi)))
         else:
